@@ -7,7 +7,7 @@ Open Scope N_scope.
 
 (* a long clean trace: handshake, two operations, data, a duplicate id -> 4409, drain *)
 Definition ex_tws_clean : list input :=
-  [CPing; CInit IAccept; CSubscribe 1 PSub; CSubscribe 2 PQuery; EFlush 0; ERet 1 RData false; ERet 0 RData false;
+  [CPing; CInit IAccept; CSubscribe 1 PSub; CSubscribe 2 PQuery; EFlush 0; ERet 1 RData false; ERet 0 RData true;
    CComplete 1; ERet 0 ROk false; CSubscribe 1 PQuery; CSubscribe 1 PSub; ERet 2 RData false].
 Example ex_partial_tws :
   causes_of TWS ex_tws_clean = [] /\ monitor_accepts TWS ex_tws_clean (run_outs TWS ex_tws_clean) = true
